@@ -547,12 +547,17 @@ def d6_codecs(chk, repo, v, r):
         if text.startswith("# valuelabels:") and exprs:
             lab_expr = exprs[0]
     sent = None
-    if isinstance(unit_expr, ast.Name):
-        for st in v.stmts():
-            if isinstance(st, ast.Assign) and isinstance(st.targets[0], ast.Name) and st.targets[0].id == unit_expr.id:
-                for n in ast.walk(st.value):
-                    if isinstance(n, ast.IfExp) and isinstance(n.orelse, ast.Constant) and isinstance(n.orelse.value, str):
-                        sent = n.orelse.value
+    if unit_expr is not None:
+        # the placeholder word: the one non-blank string constant in the value that is written for `valueunits` (followed
+        # through temporaries - the value, not the statement that builds it)
+        ut = v.term(unit_expr, at=hst)
+        words = set()
+        for a_id in v.ctx.all_atoms(ut):
+            hd = v.ctx.atoms[a_id][0]
+            if hd[0] == "str" and isinstance(hd[1], str) and hd[1].strip():
+                words.add(hd[1])
+        if len(words) == 1 and v.ctx.mentions(ut, v.spec("self.unit")):
+            sent = words.pop()
     chk.ob("io.ovf._to_ovf::unit-sentinel", sent is not None, "C09.D6",
            "a field without unit needs a placeholder word in valueunits (one word per component)", v.f)
     ok = False
